@@ -265,7 +265,8 @@ pub fn exec2(inst: &Inst, b: &Built, entries: &[pmtiles2::Entry], sched: Sched, 
         }
         Scen::WriteSourceFaults => {
             // the *source* reader starts failing during to_writer; the output stream is healthy
-            let s = Stream::new(b.bytes.clone(), 0, Sched { fail_from: None, ..sched.clone() }, keep_log);
+            // (the source hands its data out in pieces of at most 700 bytes, as a network or pipe would)
+            let s = Stream::new(b.bytes.clone(), 0, Sched { fail_from: None, caps: vec![700], cycle: true, ..sched.clone() }, keep_log);
             let s2 = s.clone();
             let s3 = s.clone();
             let mut base = 0u64;
